@@ -82,5 +82,7 @@ pub mod c17;
 #[cfg(feature = "c18")]
 pub mod c18;
 pub mod c19;
+#[cfg(feature = "c19")]
+pub mod c19_big;
 #[cfg(feature = "c20")]
 pub mod gen_c20;
